@@ -127,6 +127,10 @@ func c17RD(i int) bgp.RouteDistinguisherInterface {
 	return bgp.NewRouteDistinguisherTwoOctetAS(65000, uint32(100+i))
 }
 
+// RDs 0..2 are used by remote PEs only, 3..7 are given to the VRFs (one live VRF per RD; a remote PE
+// may use a VRF's RD too: the same RD:prefix from another PE)
+const c17NRD = 8
+
 var c17Srcs []*PeerInfo
 
 func init() {
@@ -143,9 +147,14 @@ func (c *c17Path) build(withdraw bool) *Path {
 	if len(c.ecs) > 0 {
 		attrs = append(attrs, bgp.NewPathAttributeExtendedCommunities(append([]bgp.ExtendedCommunityInterface{}, c.ecs...)))
 	}
-	mp, _ := bgp.NewPathAttributeMpReachNLRI(bgp.RF_IPv4_VPN, []bgp.PathNLRI{{NLRI: n, ID: uint32(c.pid)}}, c17Srcs[c.src].Address)
+	var src *PeerInfo // nil: locally originated (a route added to a VRF)
+	nh := netip.MustParseAddr("0.0.0.0")
+	if c.src >= 0 {
+		src, nh = c17Srcs[c.src], c17Srcs[c.src].Address
+	}
+	mp, _ := bgp.NewPathAttributeMpReachNLRI(bgp.RF_IPv4_VPN, []bgp.PathNLRI{{NLRI: n, ID: uint32(c.pid)}}, nh)
 	attrs = append(attrs, mp)
-	return NewPath(bgp.RF_IPv4_VPN, c17Srcs[c.src], bgp.PathNLRI{NLRI: n, ID: uint32(c.pid)}, withdraw, attrs, time.Unix(1700000000, 0), false)
+	return NewPath(bgp.RF_IPv4_VPN, src, bgp.PathNLRI{NLRI: n, ID: uint32(c.pid)}, withdraw, attrs, time.Unix(1700000000, 0), false)
 }
 
 func c17UID(p *Path) int {
@@ -200,6 +209,7 @@ type c17Scn struct {
 	nvrf  int
 	taken map[string]uint64
 	rtcHist []string
+	everRD  map[int]bool
 	hnd   []*RouteTargetMembershipHandler
 	memOn []map[[3]uint64]bool // oracle bookkeeping per handler
 }
@@ -246,7 +256,7 @@ func c17Ints(l []int) string {
 // oracle: expected index content from the known path lists and the octets of the communities
 func (sc *c17Scn) idxExpected() map[uint64][]int {
 	out := map[uint64][]int{}
-	for rd := 0; rd < 3; rd++ {
+	for rd := 0; rd < c17NRD; rd++ {
 		for pfx := range c17Prefixes {
 			for i, p := range sc.known(rd, pfx) {
 				if i != 0 && p.RemoteID() == 0 {
@@ -327,10 +337,77 @@ func (sc *c17Scn) genPath() *c17Path {
 	if c.src >= 2 {
 		c.pid = r.pick(1, 1, 2, 2, 0)
 	}
+	if len(sc.vrfs) > 0 && r.chance(25) {
+		c.rd = sc.vrfs[r.intn(len(sc.vrfs))].rd // another PE using the RD of one of our VRFs
+		sc.o.stat("route_under_a_vrf_rd", 1)
+	}
 	c.label = uint32(1000 + c.rd)
 	// distinct preference per (source, path-id) slot inside a destination
 	c.pref = uint32(100 + r.intn(6)*64 + c.src*4 + c.pid)
 	return c
+}
+
+// checkNoOriginated: no locally originated route under this RD is in the global table (after the VRF
+// was deleted, and when a VRF is created - also re-created with the same name and RD)
+func (sc *c17Scn) checkNoOriginated(rd int, after string) {
+	for pfx := range c17Prefixes {
+		for i, p := range sc.known(rd, pfx) {
+			if p.IsLocal() {
+				sc.o.fail("vrf-delete-originated-route-survives", map[string]any{"after": after, "rd": c17RD(rd).String(), "prefix": c17Prefixes[pfx],
+					"rank of the local path in its destination": i, "destination": c17UIDs(sc.known(rd, pfx))})
+			}
+		}
+	}
+}
+
+// originateOp: a route is added to a VRF (API AddPath with a VRF id: Vrf.ToGlobalPath on a local
+// path), replaced, or withdrawn from it
+func (sc *c17Scn) originateOp() {
+	r, o := sc.r, sc.o
+	if len(sc.vrfs) == 0 {
+		return
+	}
+	v := sc.vrfs[r.intn(len(sc.vrfs))]
+	pfx := r.intn(len(c17Prefixes))
+	key := fmt.Sprintf("%d/%d/-1/0", v.rd, pfx)
+	if c, ok := sc.live[key]; ok && r.chance(30) {
+		delete(sc.live, key)
+		o.stat("vrf_route_withdraw", 1)
+		sc.update(c, true)
+		return
+	}
+	own := c17PickECs(r, 1)
+	sc.uid++
+	c := &c17Path{uid: sc.uid, src: -1, rd: v.rd, pfx: pfx, label: v.label, pref: uint32(100 + r.intn(6)*64 + 16)}
+	c.ecs = append(append([]bgp.ExtendedCommunityInterface{}, own...), v.exp...)
+	n, _ := bgp.NewIPAddrPrefix(netip.MustParsePrefix(c17Prefixes[pfx]))
+	nh, _ := bgp.NewPathAttributeNextHop(netip.MustParseAddr("0.0.0.0"))
+	attrs := []bgp.PathAttributeInterface{bgp.NewPathAttributeOrigin(0), bgp.NewPathAttributeAsPath(nil), nh,
+		bgp.NewPathAttributeLocalPref(c.pref), bgp.NewPathAttributeCommunities([]uint32{0xfffe0000 | uint32(c.uid&0xffff), uint32(c.uid)})}
+	if len(own) > 0 {
+		attrs = append(attrs, bgp.NewPathAttributeExtendedCommunities(append([]bgp.ExtendedCommunityInterface{}, own...)))
+	}
+	p := NewPath(bgp.RF_IPv4_UC, nil, bgp.PathNLRI{NLRI: n}, false, attrs, time.Unix(1700000000, 0), false)
+	if err := v.v.ToGlobalPath(p); err != nil {
+		o.fail("vrf-export", err.Error())
+		return
+	}
+	// oracle: what was built carries the VRF's RD, label and export targets
+	vn, ok := p.GetNlri().(*bgp.LabeledVPNIPAddrPrefix)
+	if !ok || vn.RD.String() != c17RD(v.rd).String() || len(vn.Labels.Labels) == 0 || vn.Labels.Labels[0] != v.label ||
+		c17Show(p.GetExtCommunities()) != c17Show(c.ecs) || p.GetFamily() != bgp.RF_IPv4_VPN {
+		o.fail("vrf-export", map[string]any{"ToGlobalPath": p.GetNlri().String(), "ecs": c17Show(p.GetExtCommunities()), "expected-ecs": c17Show(c.ecs)})
+		return
+	}
+	c.p = p
+	c.def(o)
+	sc.all[c.uid] = c
+	sc.live[key] = c
+	o.stat("vrf_route_originate", 1)
+	sc.feed(c, p, false, nil)
+	if k := sc.known(c.rd, c.pfx); len(k) > 1 && k[0] != p {
+		o.stat("vrf_route_not_best_of_its_destination", 1)
+	}
 }
 
 // refeedOp: a stored path is fed again, as soft reset in does: the very same object (no modifying
@@ -432,7 +509,24 @@ func (sc *c17Scn) addVrf() {
 	r, o := sc.r, sc.o
 	sc.nvrf++
 	id := sc.nvrf
-	v := &c17Vrf{id: id, name: fmt.Sprintf("vrf%d", id), rd: r.intn(3), label: uint32(2000 + id)}
+	rd := -1
+	for cand := 3; cand < c17NRD && rd < 0; cand++ {
+		free := true
+		for _, w := range sc.vrfs {
+			if w.rd == cand {
+				free = false
+			}
+		}
+		if free {
+			rd = cand
+		}
+	}
+	if rd < 0 {
+		sc.nvrf--
+		return
+	}
+	// named after its RD: adding it again after a delete is a re-creation with the same name and RD
+	v := &c17Vrf{id: id, name: fmt.Sprintf("vrf-rd%d", rd), rd: rd, label: uint32(2000 + id)}
 	// The RTC table keys RT-membership NLRIs by their TEXT form, which does not show the type octet
 	// or the sub-type ("65000:1" for a transitive RT, a non-transitive RT and a route-origin alike).
 	// Import targets are kept distinct in text so that one destination = one target
@@ -487,6 +581,11 @@ func (sc *c17Scn) addVrf() {
 	v.v.MplsLabel = v.label
 	sc.vrfs = append(sc.vrfs, v)
 	sc.rtcHist = append(sc.rtcHist, fmt.Sprintf("AddVrf imports=%s", c17Show(v.imp)))
+	if sc.everRD[v.rd] {
+		o.stat("vrf_recreated_same_name_rd", 1)
+	}
+	sc.everRD[v.rd] = true
+	sc.checkNoOriginated(v.rd, "AddVrf "+v.name)
 	o.stat("vrf_add", 1)
 	// the locally originated memberships
 	keys := make([]string, 0, len(msgs))
@@ -652,6 +751,38 @@ func (sc *c17Scn) delVrf() {
 	}
 	sc.rtcHist = append(sc.rtcHist, fmt.Sprintf("DeleteVrf imports=%s", c17Show(v.imp)))
 	sc.vrfs = append(sc.vrfs[:i], sc.vrfs[i+1:]...)
+	// the routes originated in the VRF are withdrawn from the global table, whatever their rank in
+	// their destination
+	var vpnIDs []int
+	var vpnMsgs []*Path
+	for _, m := range msgs {
+		if _, ok := m.GetNlri().(*bgp.LabeledVPNIPAddrPrefix); ok {
+			if !m.IsWithdraw || !m.IsLocal() {
+				o.fail("vrf-delete", "DeleteVrf returned a VPN path that is not a local withdrawal")
+			}
+			vpnIDs = append(vpnIDs, c17UID(m))
+			vpnMsgs = append(vpnMsgs, m)
+		}
+	}
+	sort.Ints(vpnIDs)
+	o.ask(c17Ints(vpnIDs), "delvrfpaths %d", v.id)
+	for _, m := range vpnMsgs {
+		sc.tm.Update(m)
+		vn := m.GetNlri().(*bgp.LabeledVPNIPAddrPrefix)
+		for k, c := range sc.live {
+			if c.src < 0 && c.rd == v.rd && c17Prefixes[c.pfx] == vn.Prefix.String() {
+				delete(sc.live, k)
+			}
+		}
+		o.stat("vrf_delete_withdraws_originated_route", 1)
+	}
+	for pfx := range c17Prefixes {
+		if k := sc.known(v.rd, pfx); len(k) > 0 || len(vpnMsgs) > 0 {
+			o.ask(c17UIDs(k), "dest %d %d", v.rd, pfx)
+		}
+	}
+	sc.checkIdx("DeleteVrf " + v.name)
+	sc.checkNoOriginated(v.rd, "DeleteVrf "+v.name)
 	var ks []uint64
 	for _, m := range msgs {
 		if n, ok := m.GetNlri().(*bgp.RouteTargetMembershipNLRI); ok {
@@ -705,7 +836,7 @@ func (sc *c17Scn) vrfChecks() {
 		for _, e := range v.imp {
 			impSet[c17Num(e)] = true
 		}
-		for rd := 0; rd < 3; rd++ {
+		for rd := 0; rd < c17NRD; rd++ {
 			for pfx := range c17Prefixes {
 				known := sc.known(rd, pfx)
 				if len(known) == 0 {
@@ -764,6 +895,44 @@ func (sc *c17Scn) vrfChecks() {
 			}
 		}
 	}
+	// Table.Info with the VRF (what GetTable TABLE_TYPE_VRF reports) must count what Select lists:
+	// the importable PATHS, and the destinations having one
+	for _, v := range sc.vrfs {
+		impSet := map[uint64]bool{}
+		for _, e := range v.imp {
+			impSet[c17Num(e)] = true
+		}
+		wantD, wantP, mixed := 0, 0, 0
+		for rd := 0; rd < c17NRD; rd++ {
+			for pfx := range c17Prefixes {
+				n := 0
+				known := sc.known(rd, pfx)
+				for _, p := range known {
+					for _, e := range p.GetExtCommunities() {
+						if capable, tr, num := c17Octets(e); capable && tr && impSet[num] {
+							n++
+							break
+						}
+					}
+				}
+				if n > 0 {
+					wantD++
+					wantP += n
+					if n < len(known) {
+						mixed++
+					}
+				}
+			}
+		}
+		info := sc.table().Info(TableInfoOptions{VRF: v.v})
+		o.ask(fmt.Sprintf("%d %d", info.NumDestination, info.NumPath), "vinfo %d", v.id)
+		o.stat("vrf_info_checked", 1)
+		o.stat("vrf_info_destination_with_imported_and_foreign_paths", mixed)
+		if info.NumDestination != wantD || info.NumPath != wantP {
+			o.fail("vrf-info", map[string]any{"vrf": v.name, "imports": c17Show(v.imp), "Info.NumDestination": info.NumDestination, "Info.NumPath": info.NumPath,
+				"destinations with an imported path": wantD, "imported paths": wantP})
+		}
+	}
 	// whole-table Select(VRF): destinations = those with an importable path
 	for _, v := range sc.vrfs {
 		t, err := sc.table().Select(TableSelectOption{VRF: v.v})
@@ -777,7 +946,7 @@ func (sc *c17Scn) vrfChecks() {
 		}
 		sort.Strings(got)
 		want := []string{}
-		for rd := 0; rd < 3; rd++ {
+		for rd := 0; rd < c17NRD; rd++ {
 			for pfx := range c17Prefixes {
 				var ids []string
 				for _, p := range sc.known(rd, pfx) {
@@ -840,7 +1009,7 @@ func (sc *c17Scn) convChecks() {
 			lab = vn.Labels.Labels[0]
 		}
 		rdIdx := -1
-		for i := 0; i < 3; i++ {
+		for i := 0; i < c17NRD; i++ {
 			if vn.RD.String() == c17RD(i).String() {
 				rdIdx = i
 			}
@@ -1006,7 +1175,7 @@ func (sc *c17Scn) has(h int, rt bgp.ExtendedCommunityInterface) bool {
 
 func c17NewScn(o *vOut, r *vRand) *c17Scn {
 	sc := &c17Scn{o: o, r: r, tm: NewTableManager(c17Logger(), []bgp.Family{bgp.RF_IPv4_VPN, bgp.RF_RTC_UC}),
-		live: map[string]*c17Path{}, all: map[int]*c17Path{}}
+		live: map[string]*c17Path{}, all: map[int]*c17Path{}, everRD: map[int]bool{}}
 	for i := 0; i < 3; i++ {
 		sc.hnd = append(sc.hnd, NewRouteTargetMembershipHandler())
 		sc.memOn = append(sc.memOn, map[[3]uint64]bool{})
@@ -1079,12 +1248,72 @@ func c17CorpusMgr(o *vOut) {
 	}
 }
 
+// c17CorpusVrf: what is reported for a VRF and what remains after its removal (seeded changes C17-Q,
+// C17-R): a destination with an imported and a foreign path; a VRF-originated route that is not the
+// best path of its destination when the VRF is deleted; the competing path withdrawn afterwards; the
+// VRF re-created with the same name, RD and targets.
+func c17CorpusVrf(o *vOut) {
+	sc := c17NewScn(o, &vRand{s: 7})
+	sc.taken = map[string]uint64{}
+	X, Z := c17Pool[0], c17Pool[2]
+	mk := func() *c17Vrf {
+		sc.nvrf++
+		v := &c17Vrf{id: sc.nvrf, name: "vrf-rd3", rd: 3, label: 2001, imp: []bgp.ExtendedCommunityInterface{X}, exp: []bgp.ExtendedCommunityInterface{X}}
+		msgs, err := sc.tm.AddVrf(v.name, uint32(v.id), c17RD(3), v.imp, v.exp, &PeerInfo{AS: 65000, LocalID: netip.MustParseAddr("10.255.0.1")})
+		if err != nil {
+			o.fail("vrf-add", err.Error())
+			return v
+		}
+		o.ask("ok", "vrf %d 3 %d %s %s", v.id, v.label, c17ECs(v.imp), c17ECs(v.exp))
+		v.v, _ = sc.tm.GetVrf(v.name)
+		v.v.MplsLabel = v.label
+		sc.vrfs = append(sc.vrfs, v)
+		keys := []string{}
+		for _, m := range msgs {
+			k, _ := m.GetNlri().(*bgp.RouteTargetMembershipNLRI).RouteTargetKey()
+			keys = append(keys, fmt.Sprint(k))
+			sc.tm.Update(m)
+		}
+		o.ask(strings.Join(keys, " "), "addvrf %d", v.id)
+		sc.checkNoOriginated(3, "AddVrf vrf-rd3")
+		return v
+	}
+	v := mk()
+	// a route added to the VRF (LOCAL_PREF 116) ...
+	n, _ := bgp.NewIPAddrPrefix(netip.MustParsePrefix(c17Prefixes[0]))
+	nh, _ := bgp.NewPathAttributeNextHop(netip.MustParseAddr("0.0.0.0"))
+	loc := &c17Path{uid: 9201, src: -1, rd: 3, pfx: 0, label: v.label, pref: 116, ecs: []bgp.ExtendedCommunityInterface{X}}
+	p := NewPath(bgp.RF_IPv4_UC, nil, bgp.PathNLRI{NLRI: n}, false, []bgp.PathAttributeInterface{bgp.NewPathAttributeOrigin(0), bgp.NewPathAttributeAsPath(nil), nh,
+		bgp.NewPathAttributeLocalPref(116), bgp.NewPathAttributeCommunities([]uint32{0xfffe0000 | 9201, 9201})}, time.Unix(1700000000, 0), false)
+	_ = v.v.ToGlobalPath(p)
+	loc.p = p
+	loc.def(o)
+	sc.live[sc.key(loc)] = loc
+	sc.feed(loc, p, false, nil)
+	// ... and another PE using the same RD announces the same prefix, preferred, with a foreign target
+	pe := &c17Path{uid: 9202, src: 1, rd: 3, pfx: 0, label: 1003, pref: 300, ecs: []bgp.ExtendedCommunityInterface{Z}}
+	pe.def(o)
+	sc.live[sc.key(pe)] = pe
+	sc.update(pe, false)
+	sc.vrfChecks() // Info must count 1 destination, 1 path
+	sc.r = &vRand{s: 1}
+	sc.delVrf() // the local route, runner-up of its destination, must go
+	delete(sc.live, sc.key(pe))
+	sc.update(pe, true) // nothing may come back
+	sc.checkNoOriginated(3, "withdrawal of the competing path after DeleteVrf")
+	mk() // re-created: like a first creation
+	sc.vrfChecks()
+	sc.uid = 9300
+	o.stat("corpus_vrf", 1)
+}
+
 func TestVerifC17(t *testing.T) {
 	o := vOpen(t)
 	defer o.close()
 	r := &vRand{s: o.seed*7919 + 17}
 	c17Corpus(o)
 	c17CorpusMgr(o)
+	c17CorpusVrf(o)
 	scenarios, steps := 60, 70
 	if o.thorough {
 		scenarios, steps = 400, 90
@@ -1094,8 +1323,10 @@ func TestVerifC17(t *testing.T) {
 		sc.uid = s * 1000
 		for i := 0; i < steps; i++ {
 			switch x := r.intn(100); {
-			case x < 42:
+			case x < 36:
 				sc.routeOp()
+			case x < 42:
+				sc.originateOp()
 			case x < 50:
 				sc.refeedOp()
 			case x < 57:
